@@ -37,6 +37,8 @@ func init() {
 			{ID: "R10n", Floor: 1, Doc: "the transforms accept every valid CARv1: no function of the v2 library (readers, stores, transforms) goes through carv1.NewCarReader*, whose legacy rejection of a header without roots no other part of the library shares", Run: ruleR10n},
 			{ID: "R10o", Floor: 1, Doc: "the fully-indexed characteristic is set from the StoreIdentityCIDs option, wherever it is set: a transform that sets it on its own announces a complete catalogue over an index that leaves identity sections out", Run: ruleR10o},
 			{ID: "R10p", Floor: 1, Doc: "ReplaceRootsInFile reports success only as the outcome of writing the new header: it has no `return nil` of its own (a same-roots shortcut, compared by multihash, leaves other roots in place)", Run: ruleR10p},
+			{ID: "R10q", Floor: 1, Doc: "index generation hands all records to the index in one Load (the sorted indexes replace a bucket on every Load) (= R03h)", Run: ruleR03h},
+			{ID: "R10r", Floor: 6, Doc: "the index of a wrap lists every section: nothing is dropped between sorting and compaction (= R11b)", Run: ruleR11b},
 		},
 	})
 }
